@@ -3,9 +3,11 @@ package c10
 import (
 	"errors"
 	"fmt"
+	"os"
 	"runtime"
 	"sort"
 	"strings"
+	"sync/atomic"
 	"testing"
 
 	"github.com/ipfs/go-cid"
@@ -246,10 +248,12 @@ func runSame(c SCase, b *dagen.Built, withA, withB bool) sameRes {
 			send(peerA, gsmsg.NewRequest(id, b.Root, c.Sel.Node(), 0))
 		}
 		bSent, cSent := false, false
+		var inCHook atomic.Bool
 		cID := reqID(7)
 		rs.GS.RegisterIncomingRequestHook(func(p peer.ID, rd graphsync.RequestData, ha graphsync.IncomingRequestHookActions) {
 			if p == peerC {
-				for k := 0; k < 400; k++ {
+				inCHook.Store(true)
+				for k := 0; k < 1500; k++ {
 					runtime.Gosched()
 				}
 			}
@@ -281,6 +285,9 @@ func runSame(c SCase, b *dagen.Built, withA, withB bool) sameRes {
 						panic(err)
 					}
 					w.Net.Deliver(peerC, scen.RespID)
+					for k := 0; k < 400 && !inCHook.Load(); k++ {
+						runtime.Gosched() // until the responder's loop sits in the slow hook
+					}
 				}
 				fallthrough
 			case "relbnew":
@@ -290,15 +297,20 @@ func runSame(c SCase, b *dagen.Built, withA, withB bool) sameRes {
 					released = true
 					close(stall)
 				}
-				for k := 0; k < 60; k++ {
+				for k := 0; k < 150; k++ {
 					runtime.Gosched()
 				}
 				fallthrough
 			case "bnew":
 				if withB && !bSent {
 					bSent = true
-					if st, live := rs.Impl.PeerState(peerA).IncomingState.RequestStates[id]; live {
-						r.bWhileLive = st.String()
+					if op == "bnew" {
+						if st, live := rs.Impl.PeerState(peerA).IncomingState.RequestStates[id]; live {
+							r.bWhileLive = st.String()
+						}
+					} else {
+						// (asking for the peer state would wait for the responder's loop and undo the race)
+						r.bWhileLive = "winding down"
 					}
 					sel := (&dagen.Sel{K: "match"}).Node()
 					if c.BWhole {
@@ -328,6 +340,9 @@ func runSame(c SCase, b *dagen.Built, withA, withB bool) sameRes {
 				w.Quiesce()
 			case "wait":
 				w.Quiesce()
+			}
+			if op == "relbnew" || op == "crelbnew" {
+				w.Quiesce() // whoever takes part, the step ends at rest, as every other step does
 			}
 		}
 		if !released {
@@ -386,6 +401,9 @@ func judgeSame(c SCase) *pbt.Verdict {
 	full := runSame(c, b, true, true)
 	aOnly := runSame(c, b, true, false)
 	bOnly := runSame(c, b, false, true)
+	if os.Getenv("VERIF_TRACE") != "" {
+		fmt.Printf("FULL  a=%q\n      aEv=%q b=%q bEv=%q bAccepted=%v bWhileLive=%q\nAONLY a=%q\n      aEv=%q\nBONLY b=%q\n", full.a, full.aEv, full.b, full.bEv, full.bAccepted, full.bWhileLive, aOnly.a, aOnly.aEv, bOnly.b)
+	}
 	for _, r := range []sameRes{full, aOnly, bOnly} {
 		if r.panicS != "" {
 			return v.Failf("panic: %s", r.panicS)
